@@ -9,7 +9,12 @@ GeffProps.C12.  Four case kinds:
                    validate_data(graph=True) for directed and undirected metadata;
   sphere           radius arrays (any rank, int/float dtypes, optional missing mask) through validate_data;
   ellipsoid_shape  axes x covariance shapes (the stages before the float linear algebra);
-  ellipsoid_float  DIFFERENTIAL ONLY for the float tests (no Lean model of np.allclose / eigvals): stacks clearly
+  ellipsoid_exact  the symmetric / positive-definite stage against the EXACT rational model (harness/corr/_c12_ell.py,
+                   GeffModel/Ellipsoid.lean, GeffProps.C12Ellipsoid): exact-rational stacks for 1, 2, 3 space axes (B^T B + eps I,
+                   prescribed spectra through the margin, asymmetry by exact multiples of the allclose threshold, singular and
+                   diagonal matrices, finite junk under the mask, magnitudes 2^-300 .. 2^300, float32 and integer dtypes);
+                   verdicts must agree on robust stacks, rounding-sensitive ones are only checked for exception-freedom;
+  ellipsoid_float  DIFFERENTIAL for NaN / inf junk and the older clearly-inside / clearly-outside stacks: stacks clearly
                    inside / clearly outside the symmetric positive-definite set for 1, 2, 3 space axes, masked rows
                    holding junk; the mask logic around the two tests IS modelled (validateEllipsoid, which takes
                    the per-matrix verdicts of the two numpy tests as given) and compared;
@@ -48,6 +53,7 @@ import struct
 import numpy as np
 
 from harness import common
+from harness.corr import _c12_ell, _c12_gen
 
 PROP = "C12"
 INT_DTYPES = ["int8", "int16", "int32", "int64", "uint8", "uint16", "uint32", "uint64"]
@@ -372,6 +378,9 @@ def sphere_cases(rng, n):
     yield {"kind": "sphere", "dtype": "int64", "shape": [2, 2, 2], "values": [1] * 8, "missing": None}
     yield {"kind": "sphere", "dtype": "int64", "shape": [2], "values": [-1, -1], "missing": None}
     yield {"kind": "sphere", "dtype": "int64", "shape": [3], "values": [1, 2, 3], "missing": [False, True]}
+    # an EMPTY mask is accepted by numpy on an array of any length and selects nothing (model: applyMask)
+    yield {"kind": "sphere", "dtype": "int64", "shape": [3], "values": [1, -2, 3], "missing": []}
+    yield {"kind": "sphere", "dtype": "float64", "shape": [2], "values": [str(f2bits(-1.0)), str(f2bits(2.0))], "missing": []}
     # every special value alone, masked and unmasked
     for x in specials:
         for m in (None, [False], [True]):
@@ -1472,7 +1481,9 @@ def judge_lineage(ck, c, im, mo):
 IMPL = {"graph": impl_graph, "sphere": impl_sphere, "ellipsoid_shape": impl_ell_shape,
         "ellipsoid_float": impl_ell_float, "dispatch": impl_dispatch, "lineage_masked": impl_lineage,
         "dispatch_store": impl_dispatch_store, "history": impl_history, "reader_decl": impl_reader_decl,
-        "config_history": impl_config_history}
+        "config_history": impl_config_history,
+        "ellipsoid_exact": lambda c: _c12_ell.impl(c, _outcome, _meta),
+        "np_prim": lambda c: _c12_gen.impl(c)}
 
 
 def impl_obs(c):
@@ -1481,18 +1492,22 @@ def impl_obs(c):
 
 def model_reqs(c):
     k = c["kind"]
-    if k == "graph":
+    if k == "graph":   # the hand-written model (both directednesses), then the GENERATED validators (translator T11)
         base = {"op": "graph", "ids": [str(x) for x in c["ids"]], "edges": [[str(a), str(b)] for a, b in c["edges"]]}
-        return [{**base, "directed": True}, {**base, "directed": False}]
+        return [{**base, "directed": True}, {**base, "directed": False}] + _c12_gen.gen_reqs(c)
     if k == "sphere":
         return [{"op": "sphere", "ndim": len(c["shape"]), "flat": sphere_flat_for_model(c) if len(c["shape"]) == 1 else [],
-                 "missing": c["missing"]}]
+                 "missing": c["missing"]}] + _c12_gen.gen_reqs(c)
+    if k == "np_prim":
+        return _c12_gen.reqs(c)
     if k == "ellipsoid_shape":
         return [{"op": "ellipsoid_shape", "axes": c["axes"], "shape": c["shape"]}]
     if k == "dispatch":
         return [dispatch_req(c)]
     if k == "ellipsoid_float":
         return [ell_float_req(c)]
+    if k == "ellipsoid_exact":
+        return [_c12_ell.req(c)]
     if k == "lineage_masked":
         return [{"op": "lineage_masked", "nodes": [str(x) for x in c["nodes"]], "labels": [str(x) for x in c["labels"]],
                  "edges": [[str(a), str(b)] for a, b in c["edges"]], "missing": c["missing"]}]
@@ -1516,13 +1531,15 @@ def alphabet_min(dt):
 
 
 def run(ck: common.Check):
-    ck.prove(["GeffProps.C12"])
+    ck.prove(["GeffProps.C12", "GeffProps.C12Ellipsoid", "GeffProps.C12Gen"])
     ck.rule = ("graph: corpus + ALL id lists (<=3) x edge lists (quick: <=3 ids x <=2 edges and <=2 ids x 3 edges; thorough: <=3 x <=3) over the alphabet {0,1,max(dtype)} "
                "(and {min,1,max} for <=2 ids, <=2 edges), dtypes round-robin over the 8 integer dtypes (thorough: every dtype "
                "for <=2 ids, <=2 edges), each evaluated for the four validators and for validate_data under directed and "
                "undirected metadata + seeded random mostly-valid graphs with single defects and values at the dtype limits; "
                "sphere: special values (+-0, +-inf, NaN, denormals) x mask + random arrays of rank 0-3; ellipsoid_shape: axes "
-               "lists with 0-4 space axes x shapes of rank 0-5 with extents 0-4; ellipsoid_float (differential only): A=B^T B+I "
+               "lists with 0-4 space axes x shapes of rank 0-5 with extents 0-4; ellipsoid_exact: exact-rational stacks (d=1,2,3; B^T B+eps I, prescribed smallest eigenvalue from 2^-6 through 0 to -3, "
+               "asymmetry = factor x (atol+rtol|b|) for factors 1e-3..1e6 in every off-diagonal position, one ulp, tiny magnitudes, singular, diagonal with zero, finite junk under the mask, "
+               "scales 2^-300..2^300, float32, 8 integer dtypes) classified by explicit margins on the exact entries; ellipsoid_float (differential only): A=B^T B+I "
                "vs asymmetry>=0.1 or an eigenvalue<=-0.1, junk under the mask; dispatch: all 2^5 configs x 24 declarations (track_node_props None / {} / each key alone / both keys in BOTH insertion orders, the property dicts following the same order) x "
                "invalid-data sets x data present/absent; lineage_masked: all digraphs on <=3 nodes x every missing mask x "
                "labellings of the rest + random forests with lone unlabelled nodes; non-trivial = non-empty input / some flag on")
@@ -1545,6 +1562,9 @@ def run(ck: common.Check):
     cases.extend(ell_shape_cases(full=not ck.quick))
     cases.extend(ell_float_cases(ck.rng, 1200 if ck.quick else 15000))
     cases.extend(ell_float_systematic(ck.rng, rotations=4 if ck.quick else 24))
+    import random as _random
+    cases.extend(_c12_gen.cases(_random.Random(f"C12-np-prim:{ck.seed}"), ck.quick))   # numpy primitive library (own PRNG)
+    cases.extend(_c12_ell.cases(_random.Random(f"C12-ellipsoid-exact:{ck.seed}"), ck.quick))   # own PRNG: the other streams keep their seeds
     cases.extend(dispatch_cases(full=not ck.quick))
     cases.extend(lineage_cases(ck.rng, 3, 1500 if ck.quick else 20000))
     cases.extend(history_cases(ck.rng, 600 if ck.quick else 8000, 600 if ck.quick else 8000))
@@ -1569,13 +1589,19 @@ def run(ck: common.Check):
         k = c["kind"]
         per_kind[k] = per_kind.get(k, 0) + 1
         if k == "graph":
-            judge_graph(ck, c, im, mo)
+            judge_graph(ck, c, im, mo[:2] if mo else None)
+            _c12_gen.judge_gen(ck, c, im, mo[2:] if mo else None)
         elif k == "sphere":
             judge_sphere(ck, c, im, mo[0] if mo else None)
+            _c12_gen.judge_gen(ck, c, im, mo[1:] if mo else None)
+        elif k == "np_prim":
+            _c12_gen.judge(ck, c, im, mo)
         elif k == "ellipsoid_shape":
             judge_ell_shape(ck, c, im, mo[0] if mo else None)
         elif k == "ellipsoid_float":
             judge_ell_float(ck, c, im, mo[0] if mo else None)
+        elif k == "ellipsoid_exact":
+            _c12_ell.judge(ck, c, im, mo[0] if mo else None)
         elif k == "dispatch":
             judge_dispatch(ck, c, im, mo[0] if mo else None)
         elif k == "lineage_masked":
@@ -1613,14 +1639,22 @@ def run(ck: common.Check):
                 ck.fail("C12:read_to_memory-graph", f"read_to_memory(data_validation=graph, {d}) gave {r[d]}, graph valid={o['valid_' + d]}",
                         c, r[d], o["valid_" + d])
     ck.extra["graph_through_store_and_read_to_memory"] = n_store
-    ck.extra["explanation"] = ("symmetric / positive-definite (np.allclose + np.linalg.eigvals) has NO Lean model: it is decided by "
-                           "differential testing only (kind ellipsoid_float), on matrices clearly inside or clearly outside the set")
+    ck.extra["explanation"] = ("symmetric / positive-definite stage of validate_ellipsoid: exact rational model (isSymmetric, Sylvester's criterion "
+                           "proved equivalent to positive-definiteness for sides 1-3, np.allclose's criterion read exactly; GeffProps.C12Ellipsoid), "
+                           "tied by the stream ellipsoid_exact on matrices robustly inside / outside (explicit margins); binary64 rounding inside "
+                           "np.allclose / LAPACK is NOT modelled: cases within the margin are counted as rounding-sensitive and only checked for "
+                           "exception-freedom; NaN / inf entries by differential testing only (kind ellipsoid_float)")
     ck.assumptions += [
         "numpy unique / isin / == / sort are exact on same-dtype integer arrays up to 2^64-1 (model integers are unbounded "
         "Int); exercised for all 8 integer dtypes with values at both limits",
-        "PARTIAL: the symmetric / positive-definite stage of validate_ellipsoid is float linear algebra (np.allclose, "
-        "np.linalg.eigvals) and has no Lean model; differential evidence only, on matrices clearly inside (B^T B + I) or "
-        "clearly outside (asymmetry >= 0.1, an eigenvalue <= -0.1) the set, for 1, 2 and 3 space axes, masked rows holding junk",
+        "PARTIAL: the symmetric / positive-definite stage of validate_ellipsoid is modelled in exact rational arithmetic "
+        "(GeffModel/Ellipsoid.lean: exact symmetry, np.allclose's |a-b| <= atol + rtol*|b| read exactly, Sylvester's criterion; "
+        "'all eigenvalues > 0' of a symmetric real matrix is read as positive-definiteness by the spectral theorem); the binary64 / "
+        "binary32 rounding of np.allclose and LAPACK geev is not modelled: the real validator must agree with the exact model on "
+        "every stack whose unmasked matrices are robust (asymmetry 0 or beyond the allclose threshold by a factor 1 +- 2^-30 "
+        "[2^-12 for float32]; every leading minor >= 2^-20 M^k or one <= -2^-20 M^k, M = largest |entry| [2^-8 for float32]; exactly "
+        "diagonal matrices always), the others are counted as rounding-sensitive (exception-freedom only); side >= 4 and NaN / inf "
+        "entries are outside the theorems (differential stream ellipsoid_float)",
         "radii: the model sees a float only through its binary64 bit pattern and the comparison < 0 (NaN and -0.0 are not negative)",
         "edge arrays have shape (E, 2) and the same dtype as the node ids (InMemoryGeff invariant, checked by structure validation)",
         "array layout (read-only, non-contiguous, Fortran order, non-native byte order) is beneath the model; it is varied in "
@@ -1663,6 +1697,10 @@ def replay(rp):
         judge_ell_shape(r, c, im, None)
     elif k == "ellipsoid_float":
         judge_ell_float(r, c, im)
+    elif k == "ellipsoid_exact":
+        _c12_ell.judge(r, c, im, None)
+    elif k == "np_prim":
+        pass   # model/numpy correspondence only: nothing to replay on geff
     elif k == "dispatch":
         judge_dispatch(r, c, im, None)
     elif k == "lineage_masked":
